@@ -1,7 +1,8 @@
 #!/usr/bin/env python3
-"""usage: tools/keep_seed.py <Cxx> <name> <detected-by: 'C06:reason,...'> -- copies /tmp/seed/<Cxx>/seed to /verif/seeded/<name>/ with meta.json"""
+"""usage: tools/keep_seed.py <scratch id> <name> <detected-by: 'C06:reason,...'> [<property id>] -- copies /tmp/seed/<Cxx>/seed to /verif/seeded/<name>/ with meta.json"""
 import sys, os, json, shutil
 pid, name, det = sys.argv[1], sys.argv[2], sys.argv[3]
+prop = sys.argv[4] if len(sys.argv) > 4 else pid
 src = "/tmp/seed/%s/seed" % pid
 dst = "/verif/seeded/%s" % name
 os.makedirs(dst, exist_ok=True)
@@ -12,7 +13,7 @@ m = json.load(open(os.path.join(src, "meta.json")))
 log = open("/tmp/seed/verify.log").read()
 line = [l for l in log.splitlines() if l.startswith(pid + ":")]
 meta = dict(
-    property=pid, summary=m.get("summary"), needs=m.get("needs"), demo=m.get("demo"),
+    property=prop, summary=m.get("summary"), needs=m.get("needs"), demo=m.get("demo"),
     origin="independent sub-agent given only the property text and a scratch worktree (nothing from /verif)",
     confirmed=dict(
         how="tools/verify_seed.sh %s in the scratch worktree: demo without the change, `cargo test --workspace --offline` "
